@@ -922,6 +922,11 @@ impl<'a> ParseState<'a, &'a str> {
             self.format.task.budget_separator,
             self.format.task.budget_brackets.1,
         )?;
+        // 预算值必须闭合 | 否则可能是以相同符号开头的原子词项（如独立变量`$1`），交由后续分支解析
+        self.head_skip_spaces();
+        if !self.starts_with(self.format.task.budget_brackets.1) {
+            return self.err("预算值缺少右括弧");
+        }
         // 验证预算值合法性
         if !p.is_in_01() || !d.is_in_01() || !q.is_in_01() {
             return self.err("「0-1」区间外的值（建议：`0<x<1`）");
